@@ -2160,7 +2160,12 @@ class WBEMConnection:  # pylint: disable=too-many-instance-attributes
             elif isinstance(obj, (CIMClass, CIMInstance)):
                 return 'string'
             elif isinstance(obj, list):
-                return infer_type(obj[0], param_name) if obj else None
+                # The type is inferred from the first array item that is
+                # not NULL.
+                for item in obj:
+                    if item is not None:
+                        return infer_type(item, param_name)
+                return None
             elif obj is None:
                 return None
             if isinstance(obj, int):
@@ -2190,9 +2195,17 @@ class WBEMConnection:  # pylint: disable=too-many-instance-attributes
                 # CIMClass.tocimxml() always ignores path
                 return _cim_xml.VALUE(obj.tocimxml().toxml())
             if isinstance(obj, list):
-                if obj and isinstance(obj[0], (CIMClassName, CIMInstanceName)):
-                    return _cim_xml.VALUE_REFARRAY([paramvalue(x) for x in obj])
-                return _cim_xml.VALUE_ARRAY([paramvalue(x) for x in obj])
+                is_ref = [isinstance(x, (CIMClassName, CIMInstanceName))
+                          for x in obj if x is not None]
+                if any(is_ref) and not all(is_ref):
+                    raise TypeError(
+                        _format("Method parameter array {0!A} mixes reference "
+                                "items with items of other types", obj))
+                items = [_cim_xml.VALUE_NULL() if x is None else paramvalue(x)
+                         for x in obj]
+                if any(is_ref):
+                    return _cim_xml.VALUE_REFARRAY(items)
+                return _cim_xml.VALUE_ARRAY(items)
             # The type has been checked in infer_type(), so we can assert
             assert obj is None
 
@@ -2200,8 +2213,11 @@ class WBEMConnection:  # pylint: disable=too-many-instance-attributes
             """
             Infer the embedded_object value of a parameter value.
             """
-            if isinstance(obj, list) and obj:
-                return infer_embedded_object(obj[0])
+            if isinstance(obj, list):
+                for item in obj:
+                    if item is not None:
+                        return infer_embedded_object(item)
+                return None
 
             if isinstance(obj, CIMClass):
                 return 'object'
